@@ -348,7 +348,9 @@ sts_n_aux(Source *source, Sink *sink, ByteBuffer *b, const size_t n)
     while (rest > 0) {
         byte_buffer_rewind(b);
         const ssize_t rc = sts_atmost_aux(source, sink, b, rest);
-        if (rc < 0) {
+        if (rc == -EINTR || rc == -EAGAIN) {
+            continue;
+        } else if (rc < 0) {
             return rc;
         }
         rest -= rc;
@@ -366,7 +368,9 @@ sts_drain_aux(Source *source, Sink *sink, ByteBuffer *b)
     for (;;) {
         byte_buffer_rewind(b);
         rc = sts_atmost_aux(source, sink, b, n);
-        if (rc < 0) {
+        if (rc == -EINTR || rc == -EAGAIN) {
+            continue;
+        } else if (rc < 0) {
             break;
         }
 
